@@ -62,6 +62,9 @@ def run(chk):
     if not proved and not found:
         where, pout = getattr(chk, "proof_error", ("?", ""))
         chk.broken("proof obligation Properties/C17.v no longer checks (%s)" % where, pout)
+    # DTLS 1.3 handshake machinery: model Hs/Hs13.v, theorems Properties/C17hs13.v, trace replay
+    import hs13lib
+    hs13lib.run_c17(chk, regenerate=False)
     chk.finish(
         level="proof",
         rule="timed runs: initial interval 10 ms / 1 s / 40 s, backoff on/off, every datagram towards one side or both "
